@@ -749,3 +749,25 @@ impl Taken {
         self.buffer.pop()
     }
 }
+
+// ---------------------------------------------------------------- R16.3 a linked list needs a loop-based Drop
+pub enum PosChain {
+    End,
+    Link(Box<(u32, PosChain)>),
+}
+pub enum NegChain {
+    End,
+    Link(Box<(u32, NegChain)>),
+}
+impl Drop for NegChain {
+    fn drop(&mut self) {
+        let NegChain::Link(b) = self else {
+            return;
+        };
+        let mut next = std::mem::replace(&mut b.1, NegChain::End);
+        while let NegChain::Link(b) = &mut next {
+            let tail = std::mem::replace(&mut b.1, NegChain::End);
+            next = tail;
+        }
+    }
+}
